@@ -79,6 +79,42 @@ func checkC14(c *Ctx) {
 			}
 		})
 		if hashed == nil {
+			// the digest may be computed by a helper that is handed the bytes: the hashed value is then the actual
+			// bound to the helper parameter that reaches the hash call
+			ana.Instrs(h, func(in ssa.Instruction) {
+				call, ok := in.(*ssa.Call)
+				if !ok || hashed != nil {
+					return
+				}
+				g := call.Call.StaticCallee()
+				if g == nil || g.Blocks == nil || g.Pkg != h.Pkg {
+					return
+				}
+				ana.Instrs(g, func(in2 ssa.Instruction) {
+					c2, ok := in2.(*ssa.Call)
+					if !ok {
+						return
+					}
+					if d, _ := ana.Describe(&c2.Call); (d.Pkg == "crypto/sha256" && d.Name == "Sum256") || d.Name == "Keccak256" || d.Name == "Keccak256Hash" {
+						v := c2.Call.Args[0]
+						for i := 0; i < 4; i++ {
+							switch x := v.(type) {
+							case *ssa.ChangeType:
+								v = x.X
+							case *ssa.Convert:
+								v = x.X
+							}
+						}
+						for i, par := range g.Params {
+							if ssa.Value(par) == v && i < len(call.Call.Args) {
+								hashed = call.Call.Args[i]
+							}
+						}
+					}
+				})
+			})
+		}
+		if hashed == nil {
 			r.Undecided("C14.coverage", tname, p.Pos(h.Pos()), "no hash call found in Hash()")
 			continue
 		}
@@ -101,7 +137,7 @@ func checkC14(c *Ctx) {
 
 	// the members hash covers address and power of every member
 	if mh := p.Func("mhub2/types.ExternalSigners.Hash"); mh != nil {
-		var written *ana.Prov
+		var written []*ana.Prov
 		full := false
 		ana.Instrs(mh, func(in ssa.Instruction) {
 			call, ok := in.(*ssa.Call)
@@ -110,7 +146,7 @@ func checkC14(c *Ctx) {
 			}
 			d, _ := ana.Describe(&call.Call)
 			if d.Recv == "Buffer" && d.Name == "Write" && len(call.Call.Args) == 2 {
-				written = p.Leaves(call.Call.Args[1], ana.PVOpt{})
+				written = append(written, p.Leaves(call.Call.Args[1], ana.PVOpt{}))
 			}
 			if ia, ok := in.(*ssa.IndexAddr); ok && fullRange(ia) {
 				full = true
@@ -122,7 +158,12 @@ func checkC14(c *Ctx) {
 			}
 		})
 		for _, fld := range []string{"ExternalAddress", "Power"} {
-			ok := written != nil && written.HasField("ExternalSigner."+fld) && full
+			ok := false
+			for _, w := range written {
+				if w.HasField("ExternalSigner." + fld) {
+					ok = full
+				}
+			}
 			r.Check(ok, "C14.coverage", "ExternalSigner."+fld, p.Pos(mh.Pos()), "every member's "+fld+" enters the members hash", "a signer-set member's "+fld+" does not enter the members hash used by the SignerSetTxExecuted claim hash")
 		}
 	} else {
